@@ -1,7 +1,9 @@
 pub mod c01;
+pub mod c02;
+pub mod c04;
 
 use crate::runner::Check;
 
 pub fn all() -> Vec<&'static dyn Check> {
-    vec![&c01::C01]
+    vec![&c01::C01, &c02::C02, &c04::C04]
 }
